@@ -24,10 +24,13 @@
 //   div_by_2, div_by_2_assign, add, double, sub, neg, mul, square, pow, pow_bounded_exp, invert, lincomb_vartime}; div_by_2_boxed(_assign);
 //   operators Add/Sub/Mul (4 forms each) + AddAssign/SubAssign/MulAssign (2 each) + Neg (2); Square, SquareAssign, PowBoundedExp, Retrieve, Invert,
 //   `Inverter for BoxedMontyFormInverter`, `PrecomputeInverter for BoxedMontyParams / Odd<BoxedUint>`, `PrecomputeInverterWithAdjuster`,
-//   `MontyMultiplier::mul_assign`; `Deref for Odd<T>`, `PartialEq/PartialOrd<Odd<BoxedUint>> for BoxedUint`, `NonZero<BoxedUint>::widen`.
+//   `MontyMultiplier::mul_assign`; BoxedSafeGcdInverter::new; `Deref for Odd<T>`, `PartialEq/PartialOrd<Odd<BoxedUint>> for BoxedUint`, `NonZero<BoxedUint>::widen`.
 // stub (ASSUMED): `From<&BoxedMontyParams> for BoxedMontyMultiplier` (one-line call of `new`; a trait-impl method cannot carry the `requires`),
-//   BoxedUint::widen (LIMITATION 1 of l8_boxed_methods.rs; BoxedUint::{one, max, square} are bodies), BoxedSafeGcdInverter::new + `Inverter for BoxedSafeGcdInverter::invert` (Bernstein-Yang, abstract model
-//   m()/adj()/nl(), contract = the one PROVED for the fixed-width inverter), lincomb_boxed_monty_form (contract = the one PROVED for fixed widths).
+//   BoxedUint::widen (LIMITATION 1 of l8_boxed_methods.rs; BoxedUint::{one, max, square} are bodies),
+//   (lincomb_boxed_monty_form is no longer assumed: PROVED in l8_boxed_lincomb.rs).
+// Bernstein-Yang inverter: BoxedSafeGcdInverter::new is a body here; `Inverter for BoxedSafeGcdInverter::invert` is PROVED in l8_boxed_safegcd_top.rs
+//   (trait `Inverter` re-exported from there); the model m()/adj()/nl() is defined over the concrete one of l8_boxed_safegcd.rs (`sm`/`sadj`/`swf`).
+//   Size: inverter construction / `invert` need modulus limbs <= SG_BOXED_MAX_SAT() = 1_369_567 (u32 iteration count of the inverter).
 //   Library: `Arc::from`, `Arc::as_ref`, `Arc::borrow`, `Arc::eq`, derived `Clone` / `PartialEq` of BoxedMontyParams (hand-written models),
 //   and ONE axiom `axiom_arc_partial_eq_model` (`==` on `&Arc<BoxedMontyParams>`; see there).
 // NOT covered: `impl Monty for BoxedMontyForm` (13 delegating methods in one impl block + GAT), Zeroize, Debug, the functional value of pow
@@ -60,13 +63,16 @@ use crate::l7_boxed_slices::{almost_montgomery_mul, almost_montgomery_mul_by_one
 use crate::l7_boxed_div::*;
 use crate::l8_boxed_methods::*;
 use crate::l8_boxed_methods::Integer;
-use crate::l4_invmod::{gcd, lemma_inverse_coprime, lemma_gcd_divides, lemma_gcd_greatest};
-use crate::l8_boxed_invmod::inv_mod_post;   // (also brings BoxedUint::set_bit / inv_mod2k_vartime / inv_odd_mod into the crate)
+use crate::l4_invmod::{gcd, lemma_inverse_coprime, lemma_gcd_divides, lemma_gcd_greatest, lemma_sg_gcd_eq, lemma_gcd_sym};
+use crate::l4_safegcd::{sg_nlimbs_ok, sg_gcd, P62, q62, lemma_nlimbs_room, lemma_low_inverse, inv_mod2_62};
+use crate::l8_boxed_safegcd::{sg_invert_post, SG_BOXED_MAX_SAT};
+use crate::l8_boxed_invmod::{inv_mod_post, words_of};   // (also brings BoxedUint::set_bit / inv_mod2k_vartime / inv_odd_mod into the crate)
 use core::cmp::Ordering;
 use vstd::std_specs::cmp::PartialEqSpec;
 use crate::l8_boxed_pow::*;
 pub use crate::l8_boxed_safegcd::{BoxedUnsatInt, BoxedSafeGcdInverter};   // (re-exported: the structs were declared here before)
 use crate::l8_boxed_lemmas::{lemma_p2_succ, lemma_p2_pos};
+use crate::l8_boxed_lincomb::lincomb_boxed_monty_form;
 
 // `#[derive(Debug)]` of /repo (not extracted); external to the verifier, needed only to type `debug_assert_eq!`
 impl core::fmt::Debug for BoxedMontyParams {
@@ -1795,14 +1801,8 @@ fn neg(self) -> (ret__: BoxedMontyForm)
 // ---------------------------------------------------------------------------------------------------------------------------
 // crate traits (/repo/src/traits.rs, src/traits/sealed.rs), hand-declared with `*_req` / `*_ens` (see l7_traits.rs); one method each:
 // the `*_vartime` twins are in l8_boxed_monty2.rs
-pub trait Inverter {
-    type Output;
-    spec fn invert_req(&self, value: &Self::Output) -> bool;
-    spec fn invert_ens(&self, value: &Self::Output, r: CtOption<Self::Output>) -> bool;
-    fn invert(&self, value: &Self::Output) -> (r: CtOption<Self::Output>)
-        requires self.invert_req(value)
-        ensures self.invert_ens(value, r);
-}
+// `trait Inverter` (method `invert`) and its PROVED impl for BoxedSafeGcdInverter: l8_boxed_safegcd_top.rs
+pub use crate::l8_boxed_safegcd_top::Inverter;
 pub trait PrecomputeInverter {
     type Inverter: Inverter<Output = Self::Output> + Sized;
     type Output;
@@ -1828,16 +1828,27 @@ pub trait Invert: Sized {
         ensures self.invert_ens(r);
 }
 
-// Abstract model of the (ASSUMED) Bernstein-Yang inverter object: the modulus and the adjuster it was built for and the precision
-// (limbs) of the values it accepts. The 62-bit unsaturated representation (`BoxedUnsatInt`) is not interpreted.
+// Model of the Bernstein-Yang inverter object, defined over the CONCRETE model of l8_boxed_safegcd.rs (`sm` / `sadj` / `swf`): the modulus and
+// the adjuster it was built for (values of the 62-bit unsaturated fields) and the precision (64-bit limbs) of the values it accepts, which is
+// determined by the unsaturated limb count (`sg_nlimbs_ok(sat, unsat)` has exactly one solution `sat`, lemma_sgi_nl).
 impl BoxedSafeGcdInverter {
-    pub uninterp spec fn m(&self) -> int;
-    pub uninterp spec fn adj(&self) -> int;
-    pub uninterp spec fn nl(&self) -> nat;
+    pub open spec fn m(&self) -> int { self.sm() }
+    pub open spec fn adj(&self) -> int { self.sadj() }
+    pub open spec fn nl(&self) -> nat { if 62 * self.modulus.n() >= 64 { ((62 * self.modulus.n() - 64) / 64) as nat } else { 0 } }
 }
+/// the precision an inverter is well formed for is `nl()`
+pub proof fn lemma_sgi_nl(r: &BoxedSafeGcdInverter, sat: nat)
+    requires sg_nlimbs_ok(sat as int, r.modulus.n() as int)
+    ensures r.nl() == sat
+{
+}
+/// the values `BoxedSafeGcdInverter::new` accepts with a well formed result: odd modulus (or 0, as `BoxedUint::inv_mod` passes) and an
+/// adjuster not above it
+pub open spec fn sgi_dom(m: int, a: int) -> bool { (m % 2 == 1 && a <= m) || (m == 0 && a <= 1) }
 /// what `BoxedSafeGcdInverter::new(modulus, adjuster)` returns
 pub open spec fn sgi_for(r: &BoxedSafeGcdInverter, modulus: &Odd<BoxedUint>, adjuster: &BoxedUint) -> bool {
     r.m() == modulus.0.v() && r.adj() == adjuster.v() && r.nl() == modulus.0.nl()
+        && (sgi_dom(modulus.0.v(), adjuster.v()) ==> r.swf(modulus.0.nl()))
 }
 /// contract of `BoxedSafeGcdInverter::invert` (the one PROVED for the fixed-width `SafeGcdInverter::inv` in l4_safegcd.rs), odd modulus:
 /// some exactly when value is coprime to the modulus; 0 <= ret <= M, ret < M when the adjuster is < M; ret * value == adjuster (mod M)
@@ -1851,11 +1862,21 @@ pub open spec fn sgi_invert_post(inv: &BoxedSafeGcdInverter, value: &BoxedUint, 
     }
 }
 
+/// the contract PROVED for `invert` / `invert_vartime` (l8_boxed_safegcd_top*.rs, over `sg_gcd`) gives the one stated here (over `gcd`)
+pub proof fn lemma_sgi_invert_post(inv: &BoxedSafeGcdInverter, value: &BoxedUint, r: CtOption<BoxedUint>)
+    requires sg_invert_post(inv, value, r), inv.sm() >= 0
+    ensures sgi_invert_post(inv, value, r)
+{
+    lemma_val_bound(value.limbs@, value.nl());
+    lemma_sg_gcd_eq(inv.sm() as nat, value.v() as nat);
+    lemma_gcd_sym(inv.sm() as nat, value.v() as nat);
+}
+
 impl BoxedMontyFormInverter {
     /// precomputed for well-formed parameters: modulus m, adjuster R^2 mod m
     pub open spec fn wf(&self) -> bool {
         self.params.wf() && self.inverter.m() == self.params.modulus.0.v() && self.inverter.adj() == self.params.r2.v()
-            && self.inverter.nl() == self.params.modulus.0.nl()
+            && self.inverter.nl() == self.params.modulus.0.nl() && self.inverter.swf(self.params.modulus.0.nl())
     }
 }
 
@@ -1956,41 +1977,40 @@ pub struct BoxedMontyFormInverter {
     pub params: Arc<BoxedMontyParams>,
 }
 //@@ end
-//@@ fn src/modular/safegcd/boxed.rs | impl BoxedSafeGcdInverter | new | stub | props C10 C11
+//@@ fn src/modular/safegcd/boxed.rs | impl BoxedSafeGcdInverter | new | body | props C10 C11
 impl BoxedSafeGcdInverter {
-#[verifier::external_body]
 pub fn new(modulus: &Odd<BoxedUint>, adjuster: &BoxedUint) -> (ret__: Self)
 //@+
-    // ASSUMED (conversion to the 62-bit unsaturated form, `inv_mod2_62`): `adjuster.widen(modulus.bits_precision())` asserts that the
-    // adjuster is not wider than the modulus
-    requires modulus.0.wf(), adjuster.nl() <= modulus.0.nl()
+    // PROVED. `adjuster.widen(modulus.bits_precision())` asserts that the adjuster is not wider than the modulus; size: the conversion to
+    // the 62-bit unsaturated form (`From<&BoxedUint>`) computes its limb count in usize / u32, and the inverter is usable (`swf`: the
+    // `iterations` count 49 * bits + 80 fits u32) up to SG_BOXED_MAX_SAT() = 1_369_567 limbs
+    requires modulus.0.wf(), adjuster.nl() <= modulus.0.nl(), modulus.0.nl() <= SG_BOXED_MAX_SAT()
     ensures sgi_for(&ret__, modulus, adjuster)
 //@-
 {
-    unimplemented!()
-}
-}
-//@@ end
-//@@ fn src/modular/safegcd/boxed.rs | impl Inverter for BoxedSafeGcdInverter | invert | stub | props C10 C11
-impl Inverter for BoxedSafeGcdInverter {
 //@+
-    type Output = BoxedUint;
-    // ASSUMED (Bernstein-Yang divsteps, src/modular/safegcd/boxed.rs; Thm 11.2 of eprint 2019/266): the contract proved for the fixed-width
-    // `SafeGcdInverter::inv` (l4_safegcd.rs). `to_uint(value.bits_precision())` asserts that value has the precision of the modulus.
-    open spec fn invert_req(&self, value: &BoxedUint) -> bool { value.wf() && value.nl() == self.nl() }
-    open spec fn invert_ens(&self, value: &BoxedUint, r: CtOption<BoxedUint>) -> bool { sgi_invert_post(self, value, r) }
+    proof {
+        let n = modulus.0.nl();
+        let l0 = modulus.0.limbs@[0].0 as int; let mv = modulus.0.v();
+        lemma_val_low(modulus.0.limbs@, n);
+        lemma_val_bound(modulus.0.limbs@, n); lemma_val_bound(adjuster.limbs@, adjuster.nl());
+        assert forall|iv: int| (l0 * iv) % P62() == 1 implies (#[trigger] (mv * iv)) % P62() == 1 by { lemma_low_inverse(mv, l0, iv); }
+        assert(words_of(modulus.0.limbs@)[0] == modulus.0.limbs@[0].0);
+        assert(nlimbs_for((64 * n) as u32) == n);
+    }
 //@-
-#[verifier::external_body]
-fn invert(&self, value: &BoxedUint) -> (ret__: CtOption<Self::Output>)
-{
-    unimplemented!()
-}
+        Self {
+            modulus: BoxedUnsatInt::from(&modulus.0),
+            adjuster: BoxedUnsatInt::from(&adjuster.widen(modulus.bits_precision())),
+            inverse: inv_mod2_62(modulus.0.as_words()),
+        }
+    }
 }
 //@@ end
 //@@ fn src/uint/boxed/inv_mod.rs | impl PrecomputeInverterWithAdjuster<BoxedUint> for Odd<BoxedUint> | precompute_inverter_with_adjuster | body | props C10 C11
 impl PrecomputeInverterWithAdjuster<BoxedUint> for Odd<BoxedUint> {
 //@+
-    open spec fn with_adjuster_req(&self, adjuster: &BoxedUint) -> bool { self.0.wf() && adjuster.nl() <= self.0.nl() }
+    open spec fn with_adjuster_req(&self, adjuster: &BoxedUint) -> bool { self.0.wf() && adjuster.nl() <= self.0.nl() && self.0.nl() <= SG_BOXED_MAX_SAT() }
     open spec fn with_adjuster_ens(&self, adjuster: &BoxedUint, r: BoxedSafeGcdInverter) -> bool { sgi_for(&r, self, adjuster) }
 //@-
 fn precompute_inverter_with_adjuster(&self, adjuster: &BoxedUint) -> (ret__: BoxedSafeGcdInverter)
@@ -2004,8 +2024,10 @@ impl PrecomputeInverter for Odd<BoxedUint> {
 //@+
     type Inverter = BoxedSafeGcdInverter;
     type Output = BoxedUint;
-    open spec fn precompute_inverter_req(&self) -> bool { self.0.wf() }
-    open spec fn precompute_inverter_ens(&self, r: BoxedSafeGcdInverter) -> bool { r.m() == self.0.v() && r.adj() == 1 && r.nl() == self.0.nl() }
+    open spec fn precompute_inverter_req(&self) -> bool { self.0.wf() && self.0.nl() <= SG_BOXED_MAX_SAT() }
+    open spec fn precompute_inverter_ens(&self, r: BoxedSafeGcdInverter) -> bool {
+        r.m() == self.0.v() && r.adj() == 1 && r.nl() == self.0.nl() && (sgi_dom(self.0.v(), 1) ==> r.swf(self.0.nl()))
+    }
 //@-
 fn precompute_inverter(&self) -> (ret__: BoxedSafeGcdInverter)
 {
@@ -2018,11 +2040,18 @@ impl PrecomputeInverter for BoxedMontyParams {
 //@+
     type Inverter = BoxedMontyFormInverter;
     type Output = BoxedMontyForm;
-    open spec fn precompute_inverter_req(&self) -> bool { self.wf() }
+    open spec fn precompute_inverter_req(&self) -> bool { self.wf() && self.modulus.0.nl() <= SG_BOXED_MAX_SAT() }
     open spec fn precompute_inverter_ens(&self, r: BoxedMontyFormInverter) -> bool { r.wf() && params_same(&r.params, self) }
 //@-
 fn precompute_inverter(&self) -> (ret__: BoxedMontyFormInverter)
 {
+//@+
+    proof {
+        let n = self.modulus.0.nl();
+        lemma_params_rng(self);
+        lemma_mod_bound(bp(n) * bp(n), self.modulus.0.v());
+    }
+//@-
         BoxedMontyFormInverter {
             inverter: self.modulus.precompute_inverter_with_adjuster(&self.r2),
             params: self.clone().into(),
@@ -2056,6 +2085,7 @@ fn invert(&self, value: &BoxedMontyForm) -> (ret__: CtOption<Self::Output>)
         let montgomery_form2 = value.montgomery_form.clone();
 //@+
     proof {
+        lemma_sgi_invert_post(&self.inverter, &value.montgomery_form, montgomery_form);
         if is_some.t() {
             lemma_inv_repr(montgomery_form.value.v(), t, value.params.r2.v(), m, n);
         }
@@ -2073,7 +2103,8 @@ fn invert(&self, value: &BoxedMontyForm) -> (ret__: CtOption<Self::Output>)
 impl BoxedMontyForm {
 pub fn invert(&self) -> (ret__: CtOption<Self>)
 //@+
-    requires self.wf()
+    // size: the Bernstein-Yang inverter computes its iteration count in u32 (overflow beyond SG_BOXED_MAX_SAT() = 1_369_567 limbs)
+    requires self.wf(), self.params.modulus.0.nl() <= SG_BOXED_MAX_SAT()
     ensures bmf_invert_post(self, ret__)
 //@-
 {
@@ -2085,7 +2116,7 @@ pub fn invert(&self) -> (ret__: CtOption<Self>)
 impl Invert for BoxedMontyForm {
 //@+
     type Output = CtOption<Self>;
-    open spec fn invert_req(&self) -> bool { self.wf() }
+    open spec fn invert_req(&self) -> bool { self.wf() && self.params.modulus.0.nl() <= SG_BOXED_MAX_SAT() }
     open spec fn invert_ens(&self, r: CtOption<Self>) -> bool { bmf_invert_post(self, r) }
 //@-
 fn invert(&self) -> (ret__: Self::Output)
@@ -2160,31 +2191,7 @@ proof fn lemma_blincomb_views(p: Seq<(&BoxedMontyForm, &BoxedMontyForm)>, m: int
     }
 }
 
-//@@ fn src/modular/lincomb.rs | - | lincomb_boxed_monty_form | stub | props C09 C11
-#[verifier::external_body]
-pub fn lincomb_boxed_monty_form(
-    mut products: &[(&BoxedMontyForm, &BoxedMontyForm)],
-    modulus: &Odd<BoxedUint>,
-    mod_neg_inv: Limb,
-    mod_leading_zeros: u32,
-) -> (ret__: BoxedUint)
-//@+
-    // ASSUMED: the boxed twin of `lincomb_monty_form` (PROVED for fixed widths in l6_lincomb.rs with this contract); `vec`-free but built on
-    // `impl_longa_monty_lincomb!` over `Box<[Limb]>` places and `<[T]>::split_at`
-    requires
-        modulus.0.wf(), modulus.0.v() % 2 == 1, neg_inv_ok(mod_neg_inv, modulus.0.limbs@[0]),
-        mod_leading_zeros <= 63, modulus.0.v() < p2((64 * modulus.0.nl() - mod_leading_zeros) as nat),
-        forall|i: int| 0 <= i < products@.len() ==> (#[trigger] products@[i]).0.montgomery_form.v() < modulus.0.v()
-            && products@[i].1.montgomery_form.v() < modulus.0.v()
-            && products@[i].0.montgomery_form.nl() == modulus.0.nl() && products@[i].1.montgomery_form.nl() == modulus.0.nl(),
-    ensures
-        ret__.nl() == modulus.0.nl(), ret__.v() < modulus.0.v(),
-        mont_repr(ret__.v(), modulus.0.v(), modulus.0.nl()) == bsor(products@, modulus.0.v(), modulus.0.nl(), products@.len()) % modulus.0.v(),
-//@-
-{
-    unimplemented!()
-}
-//@@ end
+// `lincomb_boxed_monty_form` (src/modular/lincomb.rs): PROVED in l8_boxed_lincomb.rs (was an assumed stub here)
 //@@ fn src/modular/boxed_monty_form/lincomb.rs | impl BoxedMontyForm | lincomb_vartime | body | props C09 C08 C11
 impl BoxedMontyForm {
 pub fn lincomb_vartime(products: &[(&Self, &Self)]) -> (ret__: Self)
